@@ -20,6 +20,7 @@ import (
 	"sort"
 	"strings"
 	"sync"
+	"time"
 
 	"github.com/facebookincubator/dns/dnsrocks/dnsdata/rdb"
 	"github.com/facebookincubator/dns/dnsrocks/dnsdata/rdb/dbdiff"
@@ -623,6 +624,225 @@ func genShape(seed uint64, idx int) (*c08case, error) {
 	return c, nil
 }
 
+// ---------------------------------------------------------------- huge failing diffs
+
+// hugeCase: a small database and a diff of more than rdb.DefaultBatchSize records that cannot be
+// applied because of ONE line (rejected by the codec, unknown operation, or a '-' of a value the
+// key does not hold).  The diff is generated, not stored: line i is
+// "++hNNNNNN.huge.test,10.x.y.z,60"; with WithDels the rows of the base file are deleted at
+// regular intervals; the offending line follows, then Post more additions.  Observed: the error
+// class and whether the full dump afterwards equals the full dump before.  The Coq side gets only
+// the offending line (theorems C08_failing_line_anywhere_is_noop / C08_absent_delete_anywhere_is_noop
+// say what the model does with such a diff whatever its other lines are).
+type hugeCase struct {
+	Kind     string `json:"kind"`
+	Class    string `json:"class"`
+	Cfg      string `json:"cfg"`
+	FileA    []int  `json:"file_a"`    // input: preprocessed base file
+	Extra    int    `json:"extra"`     // input: additions beyond rdb.DefaultBatchSize before the offending line
+	WithDels bool   `json:"with_dels"` // input
+	Post     int    `json:"post"`      // input: additions after the offending line
+	Bad      []int  `json:"bad"`       // input: the offending diff line
+
+	BatchSize  int              `json:"batch_size"` // rdb.DefaultBatchSize
+	Lines      int              `json:"lines"`      // lines of the diff
+	Records    int              `json:"records"`    // records of the lines before the offending one
+	Table      []convJ          `json:"table"`      // the codec on the argument of the offending line
+	BadPre     []complib.JEntry `json:"bad_pre"`    // what the database held before under the keys of its records
+	Readable   bool             `json:"readable"`   // the codec accepted every other line of the diff
+	Added      bool             `json:"added"`      // another line of the diff adds one of the offending line's records
+	Err        int              `json:"err"`
+	ErrText    string           `json:"err_text,omitempty"`
+	Unchanged  bool             `json:"unchanged"` // full dump after = full dump before, values in the same order
+	KeysBefore int              `json:"keys_before"`
+	RecsBefore int              `json:"recs_before"`
+	KeysAfter  int              `json:"keys_after"`
+	RecsAfter  int              `json:"recs_after"`
+	DiffKeys   [][]int          `json:"diff_keys,omitempty"` // up to five keys whose values changed
+	Ms         int              `json:"ms"`                  // wall time of ApplyDiff
+}
+
+func hugeLine(i int) string {
+	return fmt.Sprintf("++h%06d.huge.test,10.%d.%d.%d,60", i, (i>>16)&255, (i>>8)&255, i&255)
+}
+
+func runHuge(scratch string, c *hugeCase, n int) error {
+	root := filepath.Join(scratch, fmt.Sprintf("c08h-%d-%d", os.Getpid(), n))
+	if err := os.MkdirAll(root, 0o755); err != nil {
+		return err
+	}
+	defer os.RemoveAll(root)
+	cfg := complib.Cfg{V2: c.Cfg == "v2", Serial: serial}
+	base := hlib.Unints(c.FileA)
+	apath := filepath.Join(root, "a")
+	if err := complib.WriteFile(apath, base, serial); err != nil {
+		return err
+	}
+	dbdir := filepath.Join(root, "db")
+	if err := compile(apath, dbdir, cfg.V2, false); err != nil {
+		return fmt.Errorf("compilation of the base file failed: %w", err)
+	}
+	before, err := complib.DumpRDB(dbdir)
+	if err != nil {
+		return err
+	}
+	// the diff
+	c.BatchSize = rdb.DefaultBatchSize
+	nAdds := rdb.DefaultBatchSize + c.Extra
+	codec := complib.NewCodec(cfg)
+	var dels []string
+	if c.WithDels {
+		for _, l := range complib.EffectiveLines(base) {
+			if o := complib.ConvertOne(complib.NewCodec(cfg), l); o.Ok && len(o.Recs) > 0 {
+				dels = append(dels, "-"+string(l))
+			}
+		}
+	}
+	bad := hlib.Unints(c.Bad)
+	var badRecs []complib.KV
+	c.Table = []convJ{}
+	if len(bad) > 0 && (bad[0] == '+' || bad[0] == '-') {
+		o := complib.ConvertOne(codec, bad[1:])
+		if o.Panic {
+			return fmt.Errorf("codec panics on %q", bad)
+		}
+		c.Table = append(c.Table, convJ{hlib.Ints(bad[1:]), o.Ok, complib.ToJKV(o.Recs)})
+		badRecs = o.Recs
+	}
+	badSet := map[string]bool{}
+	c.BadPre = []complib.JEntry{}
+	seenKey := map[string]bool{}
+	for _, x := range badRecs {
+		badSet[string(x.K)+"\x00|"+string(x.V)] = true
+		if !seenKey[string(x.K)] {
+			seenKey[string(x.K)] = true
+			if vs, ok := before[string(x.K)]; ok {
+				e := complib.JEntry{K: hlib.Ints(x.K), Vs: [][]int{}}
+				for _, v := range vs {
+					e.Vs = append(e.Vs, hlib.Ints(v))
+				}
+				c.BadPre = append(c.BadPre, e)
+			}
+		}
+	}
+	var sb bytes.Buffer
+	c.Readable, c.Added, c.Records, c.Lines = true, false, 0, 0
+	every := 1
+	if len(dels) > 0 {
+		every = nAdds / (len(dels) + 1)
+	}
+	emit := func(l string, beforeBad bool) {
+		sb.WriteString(l)
+		sb.WriteByte('\n')
+		c.Lines++
+		o := complib.ConvertOne(codec, []byte(l[1:]))
+		if !o.Ok {
+			c.Readable = false
+			return
+		}
+		if beforeBad {
+			c.Records += len(o.Recs)
+		}
+		if l[0] == '+' {
+			for _, x := range o.Recs {
+				if badSet[string(x.K)+"\x00|"+string(x.V)] {
+					c.Added = true
+				}
+			}
+		}
+	}
+	for i := 0; i < nAdds; i++ {
+		emit(hugeLine(i), true)
+		if len(dels) > 0 && i%every == every-1 && i/every < len(dels) {
+			emit(dels[i/every], true)
+		}
+	}
+	sb.Write(bad)
+	sb.WriteByte('\n')
+	c.Lines++
+	for i := 0; i < c.Post; i++ {
+		emit(hugeLine(nAdds+i), false)
+	}
+	dpath := filepath.Join(root, "diff")
+	if err := complib.WriteFile(dpath, sb.Bytes(), serial); err != nil {
+		return err
+	}
+	t0 := time.Now()
+	aerr := rdb.ApplyDiff(dpath, dbdir)
+	c.Ms = int(time.Since(t0) / time.Millisecond)
+	c.Err = errClass(aerr)
+	c.ErrText = ""
+	if aerr != nil {
+		c.ErrText = aerr.Error()
+		if len(c.ErrText) > 200 {
+			c.ErrText = c.ErrText[:200]
+		}
+	}
+	after, err := complib.DumpRDB(dbdir)
+	if err != nil {
+		return err
+	}
+	c.KeysBefore, c.RecsBefore, c.KeysAfter, c.RecsAfter = len(before), before.Records(), len(after), after.Records()
+	c.DiffKeys = nil
+	same := func(x, y [][]byte) bool {
+		if len(x) != len(y) {
+			return false
+		}
+		for i := range x {
+			if !bytes.Equal(x[i], y[i]) {
+				return false
+			}
+		}
+		return true
+	}
+	ndiff := 0
+	for _, k := range after.Keys() {
+		if !same(after[k], before[k]) {
+			ndiff++
+			if len(c.DiffKeys) < 5 {
+				c.DiffKeys = append(c.DiffKeys, hlib.Ints([]byte(k)))
+			}
+		}
+	}
+	for _, k := range before.Keys() {
+		if _, ok := after[k]; !ok {
+			ndiff++
+			if len(c.DiffKeys) < 5 {
+				c.DiffKeys = append(c.DiffKeys, hlib.Ints([]byte(k)))
+			}
+		}
+	}
+	c.Unchanged = ndiff == 0
+	return nil
+}
+
+func genHuge(seed uint64, idx int) (*hugeCase, error) {
+	r := hlib.NewRng(seed, uint64(900000+idx))
+	w := &world{g: complib.NewGen(r, 1+r.Intn(2), 1+r.Intn(3)), r: r, nets: map[string]string{}}
+	for k := 3 + r.Intn(6); k > 0; k-- {
+		w.lines = append(w.lines, w.g.Line())
+	}
+	w.lines = append(w.lines, "+h000005.huge.test,10.200.0.1,60") // a key the diff adds to as well
+	if r.Chance(1, 2) {
+		w.nets["ec|10.0.0.0/8"] = "ab"
+	}
+	base, err := complib.Preprocess(w.raw(), serial)
+	if err != nil {
+		return nil, err
+	}
+	variants := []struct{ name, line string }{
+		{"rejected-line", "+Qbad.huge.test,1.2.3.4"},
+		{"absent-key", "-+absent.huge.test,10.9.9.9,60"},
+		{"bad-op", "*+x.huge.test,1.2.3.4"},
+		{"absent-value", "-+h000005.huge.test,10.77.77.77,60"},
+		{"rejected-delete", "-+a.huge.test,1.2.3.4,,,\\x"},
+	}
+	v := variants[idx%len(variants)]
+	c := &hugeCase{Kind: "huge", Class: "huge-fail:" + v.name, Cfg: []string{"v1", "v2"}[idx%2], FileA: hlib.Ints(base),
+		Extra: 500 + r.Intn(3000), WithDels: idx%3 != 1, Post: []int{0, 40, 0}[idx%3], Bad: hlib.Ints([]byte(v.line))}
+	return c, nil
+}
+
 func run(a *hlib.Args, e *hlib.Emitter) error {
 	log.SetOutput(io.Discard)
 	if a.Scratch == "" {
@@ -634,6 +854,7 @@ func run(a *hlib.Args, e *hlib.Emitter) error {
 		a.Scratch = d
 	}
 	var cases []*c08case
+	var huges []*hugeCase
 	if a.Replay != "" {
 		raw, err := hlib.ReadReplay(a.Replay)
 		if err != nil {
@@ -641,6 +862,16 @@ func run(a *hlib.Args, e *hlib.Emitter) error {
 		}
 		for _, m := range raw {
 			b, _ := json.Marshal(m)
+			var kind string
+			json.Unmarshal(m["kind"], &kind)
+			if kind == "huge" {
+				h := &hugeCase{}
+				if err := json.Unmarshal(b, h); err != nil {
+					return err
+				}
+				huges = append(huges, h)
+				continue
+			}
 			c := &c08case{}
 			if err := json.Unmarshal(b, c); err != nil {
 				return err
@@ -661,6 +892,32 @@ func run(a *hlib.Args, e *hlib.Emitter) error {
 			}
 			cases = append(cases, c)
 		}
+		nh := 0
+		if a.N > 0 {
+			nh = 3
+		}
+		if a.Tier == "thorough" {
+			nh = 20
+		}
+		for i := 0; i < nh; i++ {
+			h, err := genHuge(a.Seed, i)
+			if err != nil {
+				return err
+			}
+			huges = append(huges, h)
+		}
+	}
+	herrs := make([]error, len(huges))
+	var hwg sync.WaitGroup
+	hsem := make(chan struct{}, 3)
+	for i, h := range huges {
+		hwg.Add(1)
+		go func(i int, h *hugeCase) {
+			defer hwg.Done()
+			hsem <- struct{}{}
+			defer func() { <-hsem }()
+			herrs[i] = runHuge(a.Scratch, h, i)
+		}(i, h)
 	}
 	errs := make([]error, len(cases))
 	var wg sync.WaitGroup
@@ -680,6 +937,13 @@ func run(a *hlib.Args, e *hlib.Emitter) error {
 			return errs[i]
 		}
 		e.Emit(c)
+	}
+	hwg.Wait()
+	for i, h := range huges {
+		if herrs[i] != nil {
+			return herrs[i]
+		}
+		e.Emit(h)
 	}
 	return nil
 }
